@@ -55,11 +55,119 @@ pub fn run(args: &Args, rep: &mut Report) {
             }
         }
     }
+    invoke_step_family(&mut w);
     w.flush_legality();
     let q = &w.qstats;
+    w.rep.count("idle_points_with_internal_queue_sampled", q.idle_queue_samples);
     w.rep.count("internal_events_raised", q.internal_events_raised);
     w.rep.count("internal_events_consumed", q.internal_events_consumed);
     w.rep.count("external_events_consumed", q.external_events_consumed);
     w.rep.count("self_sent_external_events", q.self_sent_external);
     w.rep.count("max_pending_internal_events", q.max_pending_internal);
+}
+
+/// Errors raised by the *invoke step* at the end of a macrostep (an `<invoke>` argument that cannot be evaluated)
+/// are internal events like any other: they must be processed before the session takes the next external event.
+/// Hand-written documents (the reference interpreter does not model invoke); the oracle is model-free: the
+/// internal-queue sample at every external dequeue (Verif_Hooks accessor), plus the order of the probe marks.
+fn invoke_step_family(w: &mut Workload) {
+    use crate::rec::Ev;
+    use crate::session::{run_doc_mode, RunStatus};
+    const CHILD: &str = r##"<scxml xmlns="http://www.w3.org/2005/07/scxml" version="1.0" datamodel="null" initial="c"><state id="c"/></scxml>"##;
+    let dms: Vec<&str> = if cfg!(feature = "full") { vec!["rfsm-expression", "ecmascript"] } else { vec!["rfsm-expression"] };
+    let failing: Vec<(&str, String)> = vec![
+        ("param-expr", format!("<invoke><param name=\"p\" expr=\"noSuchVar.f\"/><content>{}</content></invoke>", CHILD)),
+        ("param-location", format!("<invoke><param name=\"p\" location=\"noSuchVar\"/><content>{}</content></invoke>", CHILD)),
+        ("namelist", format!("<invoke namelist=\"noSuchVar\"><content>{}</content></invoke>", CHILD)),
+        ("srcexpr", "<invoke srcexpr=\"noSuchVar.uri\"/>".to_string()),
+        ("typeexpr", format!("<invoke typeexpr=\"noSuchVar.t\"><content>{}</content></invoke>", CHILD)),
+        ("content-expr", "<invoke><content expr=\"noSuchVar.doc\"/></invoke>".to_string()),
+    ];
+    let mut idx = 0usize;
+    for dm in &dms {
+        for (kind, inv) in &failing {
+            for shape in ["single", "parallel", "nested"] {
+                for prequeue in [false, true] {
+                    idx += 1;
+                    if !w.args.mine(idx) || w.args.miri() && !w.args.keep(idx / w.args.nshards.max(1), 6) {
+                        continue;
+                    }
+                    let gate = if prequeue { "<script>gate(1)</script>" } else { "" };
+                    let body = match shape {
+                        "single" => format!(
+                            r##"<state id="s0">{inv}
+   <transition event="error.execution" target="handled"><script>mark('h')</script></transition>
+   <transition event="ext" target="late"><script>mark('x-late')</script></transition></state>"##,
+                            inv = inv
+                        ),
+                        // the failing invoke sits in one region, a working one in the sibling region
+                        "parallel" => format!(
+                            r##"<parallel id="s0">
+   <state id="r1"><invoke id="good"><content>{child}</content></invoke></state>
+   <state id="r2" initial="r2a"><state id="r2a">{inv}</state><state id="r2b"/></state>
+   <transition event="error.execution" target="handled"><script>mark('h')</script></transition>
+   <transition event="ext" target="late"><script>mark('x-late')</script></transition></parallel>"##,
+                            inv = inv,
+                            child = CHILD
+                        ),
+                        _ => format!(
+                            r##"<state id="s0" initial="s0a"><invoke id="good"><content>{child}</content></invoke>
+   <state id="s0a">{inv}</state>
+   <transition event="error.execution" target="handled"><script>mark('h')</script></transition>
+   <transition event="ext" target="late"><script>mark('x-late')</script></transition></state>"##,
+                            inv = inv,
+                            child = CHILD
+                        ),
+                    };
+                    let xml = format!(
+                        r##"<scxml xmlns="http://www.w3.org/2005/07/scxml" version="1.0" datamodel="{dm}" initial="s0">{gate}
+ {body}
+ <state id="handled"><transition event="ext" target="ok"><script>mark('x-ok')</script></transition></state>
+ <state id="late"/><state id="ok"/>
+</scxml>"##,
+                        dm = dm,
+                        gate = gate,
+                        body = body
+                    );
+                    let path = vec!["ext".to_string()];
+                    let res = run_doc_mode(&xml, &path, prequeue);
+                    w.rep.evaluations += 1;
+                    w.rep.count("invoke_step_error_runs", 1);
+                    let wit = |extra: serde_json::Value| serde_json::json!({"xml": xml, "events": path, "prequeued": prequeue, "family": "invoke-step-error", "argument": kind, "shape": shape,
+                        "log_tail": tail(&res, 30), "extra": extra});
+                    if res.status != RunStatus::Completed {
+                        w.rep.inconclusive(&format!("invoke-step family {}/{}: {:?}", kind, shape, res.status));
+                        continue;
+                    }
+                    if let Err((key, what)) = crate::monitors::queue_discipline(&res, &mut w.qstats) {
+                        w.rep.violation(&key, &format!("[invoke-step error, {} {} {}] {}", dm, kind, shape, what), wit(serde_json::json!({})));
+                        continue;
+                    }
+                    let marks: Vec<String> = res
+                        .log
+                        .iter()
+                        .filter_map(|e| match &e.ev {
+                            Ev::Mark { tag, .. } if tag == "h" || tag.starts_with("x-") => Some(tag.clone()),
+                            _ => None,
+                        })
+                        .collect();
+                    let errors = res.log.iter().filter(|e| matches!(&e.ev, Ev::IRecv(ev) if ev.name == "error.execution")).count();
+                    if errors > 0 {
+                        w.rep.count("invoke_step_errors_raised", 1);
+                        w.rep.nontrivial_key(&format!("invoke-step:{}:{}:{}:{}", dm, kind, shape, prequeue));
+                        // the error event was raised by the invoke step of the first macrostep: it is handled first
+                        if marks != vec!["h".to_string(), "x-ok".to_string()] {
+                            w.rep.violation(
+                                "invoke-step-error-processed-after-external-event",
+                                &format!("[{} {} {}] error.execution raised by the invoke step must be processed before the waiting external event: probe marks {:?}, expected [h, x-ok]", dm, kind, shape, marks),
+                                wit(serde_json::json!({"marks": marks})),
+                            );
+                        }
+                    } else {
+                        w.rep.count("invoke_step_without_error_event", 1);
+                    }
+                }
+            }
+        }
+    }
 }
